@@ -131,6 +131,12 @@ def sub(x, context=None):
     return Box(s.get().v + x.v)
 
 
+@command
+def mkval(x, kind: int = 0):
+    CALLS.append("mkval")
+    return [None, 5, "txt", {"a": 1}, b"by", Box(1)][kind]
+
+
 class StubChild:
     """induction hypothesis: the recursive evaluation returns *some* state (prepared by the obligation)"""
 
